@@ -343,6 +343,14 @@ type MultiGetPlan struct {
 func NewMultiGetPlan(s Storage, f *FilterExec, keys []string) Plan {
 	// We should sort keys to ensure order by erase works correctly
 	sort.Strings(keys)
+	// A key listed twice must be read (and returned) only once
+	ukeys := keys[:0]
+	for i, key := range keys {
+		if i == 0 || key != keys[i-1] {
+			ukeys = append(ukeys, key)
+		}
+	}
+	keys = ukeys
 	return &MultiGetPlan{
 		Storage: s,
 		Filter:  f,
